@@ -155,6 +155,11 @@ def compare(src, dec, tj, lang_id, path="/"):
                     diffs.append("%s/@%s: base64 value decoded as other octets" % (here, sn))
     # children
     sk, dk = src["kids"], dec["kids"]
+    if dec.get("binary") and any(isinstance(k, dict) for k in sk):
+        # binary-flagged element (base64 in XML): the front end collects ALL character data of the element, decodes
+        # it once and appends it as one text node after the child elements
+        txt = "".join(k[1] for k in sk if not isinstance(k, dict))
+        sk = [k for k in sk if isinstance(k, dict)] + ([("text", txt)] if txt.strip(WS) else [])
     if lang_id in SYNCML and src["name"] == "Data":
         # the SyncML front end wraps the text of <Data> of vCard / vCalendar / text/clear items into a CDATA
         # section (kept verbatim, blanks included): compare modulo blank text here
@@ -179,7 +184,7 @@ def compare(src, dec, tj, lang_id, path="/"):
             if isinstance(b, dict):
                 diffs.append("%s: text %r decoded as element" % (here, s[:40]))
             elif b[0] == "text":
-                if b[1] != s and not _syncml_rewrite(lang_id, s, b[1]):
+                if b[1] != s and not _syncml_rewrite(lang_id, src["name"], s, b[1]):
                     diffs.append("%s: text %r decoded as %r" % (here, s[:80], b[1][:80]))
             elif b[0] == "int":
                 try:
@@ -220,14 +225,18 @@ def _drop_blank(ks):
     return out
 
 
-def _syncml_rewrite(lang_id, s, d):
-    """language-specific rewrites of SyncML documents (not failures): the media type of an embedded document
-    is rewritten to its WBXML form, and a lone LF inside vCard/vCalendar data becomes CRLF"""
+def _syncml_rewrite(lang_id, elt, s, d):
+    """language-specific rewrites of SyncML documents (not failures): inside a MetInf <Type> the media type of an
+    embedded document is rewritten to its WBXML form (the DM tree type in SyncML 1.2 only), and a lone LF inside
+    vCard/vCalendar <Data> becomes CRLF"""
     if lang_id not in SYNCML:
         return False
-    if s.lower() in ("application/vnd.syncml-devinf+xml", "application/vnd.syncml.dmtnds+xml"):
-        return d == s.lower()[:-3] + "wbxml"
-    return s.replace("\r\n", "\n").strip(WS) == d.replace("\r\n", "\n").strip(WS)
+    if elt == "Type":
+        if s.lower() == "application/vnd.syncml-devinf+xml" or (lang_id == 2201 and s.lower() == "application/vnd.syncml.dmtnds+xml"):
+            return d == s.lower()[:-3] + "wbxml"
+    if elt == "Data":
+        return s.replace("\r\n", "\n").strip(WS) == d.replace("\r\n", "\n").strip(WS)
+    return False
 
 
 def _shape(ks):
